@@ -1794,6 +1794,7 @@ var errorFilters = map[string]map[string]string{
 	"os.ReadFile":               {"os.IsNotExist": "no such file: the caller falls back to defaults"},
 	"os.Remove":                 {"os.IsNotExist": "already gone"},
 	"os.Create":                 {"os.IsPermission": "an earlier read-only entry of the same name: retried after a transient chmod, and the retry's error is consumed"},
+	"os.OpenFile":               {"os.IsPermission": "an earlier read-only entry of the same name: retried after a transient chmod, and the retry's error is consumed"},
 	"os.Chmod":                  {"os.IsNotExist": "restoring a recorded directory that is no longer there: nothing to restore (upstream's tolerance, kept)"},
 	"os.Chtimes":                {"os.IsNotExist": "restoring a recorded directory that is no longer there: nothing to restore (upstream's tolerance, kept)"},
 	"archive/tar.(Reader).Next": {"== io.EOF": "end of archive"},
